@@ -26,6 +26,8 @@ type LockSpec struct {
 	// HeldBy: wrapper functions (FullName) that return with the lock of their i-th argument held for
 	// writing until the caller's exit: name -> argument index.
 	HeldBy map[string]int
+	// FreshCtors: functions (FullName) whose result is a new, not yet shared object.
+	FreshCtors map[string]bool
 }
 
 type lockMode uint8
@@ -463,6 +465,10 @@ func AnalyzeLock(spec *LockSpec, funcs []*ssa.Function) *LockResult {
 		switch x := v.(type) {
 		case *ssa.Alloc:
 			return true
+		case *ssa.Call:
+			if f := x.Call.StaticCallee(); f != nil && spec.FreshCtors[FullName(f)] {
+				return true
+			}
 		case *ssa.UnOp:
 			// load of a local cell that only ever holds fresh objects
 			if a, ok := x.X.(*ssa.Alloc); ok && x.Op == token.MUL {
